@@ -1,0 +1,22 @@
+//go:build verif
+
+// Contracts for package portfolio (machine-checked by /verif/engine; comment-only file).
+package portfolio
+
+// execute (returns): a return is reported for EVERY period of the partition: the period end days are
+// added to the journal builder (performance.Perf -> Builder.Days) BEFORE the journal is built from it,
+// so that a period ending on a day without directives still has a day to report on.
+//@ func (*returnsRunner).execute
+//@   requires r != nil && cmd != nil && len(args) >= 1
+//@   modifies *
+//@   callback Perf=0
+//@   callback Build=1
+//@   ensures [C20] @both: result == nil ==> tlen() == old(tlen()) + 2
+//
+// execute (weights): likewise the period end days are added (Builder.Days) before the journal is built.
+//@ func (*weightsRunner).execute
+//@   requires r != nil && cmd != nil && len(args) >= 1
+//@   modifies *
+//@   callback Days=0
+//@   callback Build=1
+//@   ensures [C20] @both: result == nil ==> tlen() >= old(tlen()) + 2
